@@ -182,6 +182,39 @@ func scenarioC15(c *Ctx) {
 			}
 		}})
 	}
+	// issue, answer, finish the batch, the same proposal again (same operation id), answer again:
+	// a retired operation must stay retired
+	startIdx := -1
+	for i, it := range h {
+		if it.In.Msg.Event == "event_signing_start" {
+			startIdx = i
+		}
+	}
+	if startIdx >= 0 {
+		var signOp *ctypes.Operation
+		for _, o := range points[startIdx].ops {
+			if string(o.Type) == "state_signing_await_partial_signs" {
+				signOp = o
+			}
+		}
+		if signOp != nil {
+			mk := func() *dto.OperationDTO {
+				return &dto.OperationDTO{ID: signOp.ID, Type: string(signOp.Type), Payload: signOp.Payload, CreatedAt: signOp.CreatedAt, DkgID: signOp.DKGIdentifier,
+					Event: "event_signing_partial_sign_received", ResultMsgs: []storage.Message{{Event: "event_signing_partial_sign_received", Data: []byte(`{"reissue":"test"}`), DkgRoundID: signOp.DKGIdentifier}}}
+			}
+			items := append([]Item{}, h[:startIdx+1]...)
+			items = append(items, resultItem(mk(), known, "first-answer"))
+			items = append(items, h[startIdx+1:]...)
+			items = append(items, h[startIdx])
+			items = append(items, resultItem(mk(), known, "answer-after-reissue"))
+			cases = append(cases, HistCase{Kind: "result-after-reissue", User: me, Items: items, Check: func(ob RunObs) {
+				if ob.Classes[len(ob.Classes)-1] != "err" || ob.Before != ob.After {
+					fail("answered-twice", "an operation that had been answered and retired could be answered again after the same operation was issued a second time",
+						map[string]interface{}{"classes": strings.Join(ob.Classes, ","), "before": ob.Before, "after": ob.After})
+				}
+			}})
+		}
+	}
 	runCases(c, cases)
 	c.Notes["histories"] = len(cases)
 }
